@@ -77,14 +77,16 @@ PROPS = {
         assumptions=[],
     ),
     "C26": dict(
-        units=["u5_array", "u3_str"],
+        units=["u5_array", "u3_str", "u16_prelude"],
         level="model_checking",
         level_text=("VM array instructions only (ConstructArray, GetIndex, SetIndex, ArrayPush, ArrayPushIntImm, ArrayLength, ArrayPop, "
                     "DeconstructArray) on the real pointer code against a list model: every array length 0..3, all element values and all "
                     "i64 indices; out-of-range indexing and popping an empty array stop with the array-out-of-bounds runtime error."),
-        level_note=("Bounded by array length <= 3. swap/remove/clear/find/contains/filled/clone/iteration are Abra source (prelude) and are "
-                    "not decided. string_nth_byte bounds (same failure mode) is a Verus proof in u3_str."),
-        technique="Kani harnesses on the real vm.rs (one per concrete array length) + Verus for StringNthByte",
+        level_note=("VM arms bounded by array length <= 3. The loop-free prelude members len/is_empty/push/pop/swap/remove/bounds are cut from "
+                    "modules/prelude.abra and checked against a list model by the unit's own VC generator (Z3 sequences; remove.permutation bounded to "
+                    "lists <= 6, the rest for all lengths), with the VM-arm contracts as the meaning of the primitives. clear/find/contains/filled/clone/"
+                    "iteration/sort contain loops in Abra source and are not decided. string_nth_byte bounds is a Verus proof in u3_str."),
+        technique="Kani harnesses on the real vm.rs (one per concrete array length) + own VC generator -> Z3 for loop-free prelude array members + Verus for StringNthByte",
         scope="array arms of the VM",
         assumptions=[],
     ),
@@ -189,14 +191,80 @@ PROPS = {
         technique="Kani/CBMC with --memory-leak-check + exhaustive bounded execution",
         scope="impl Drop for VmGreenThread, ObjectHeader::dealloc, StringObject::new_static / VmSharedReadonly, sweep",
         assumptions=[]),
+    "C04": dict(
+        units=["u11_lexer", "u13_named_args"], level="model_checking",
+        level_text=("Lexer and one resolver leaf only. No panic/overflow/out-of-bounds in scan_for_unescaped_delim, Lexer::handle_num, "
+                    "process_escapes_into, the comment arm of tokenize_file, emit/emit_with_skipped for all inputs within the stated bounds (Kani on the "
+                    "verbatim lexer.rs); the keyword table round-trips (complete); calculate_named_arg_order never panics on any of the 11,715 call shapes "
+                    "of arity <= 3 (exhaustive bounded execution)."),
+        level_note=("NOT covered: tokenize_file's main loop and dispatch, Lexer::new, handle_multiline_string (CBMC exceeds 600 s at 2 chars), the parser, the "
+                    "rest of the resolver, the type checker and the exhaustiveness checker. Trusted: std stubs for String::push / Vec::push / count_chars; "
+                    "pointer checks off (lexer.rs has no unsafe, checked each run)."),
+        technique="Kani/CBMC bounded function-level verification of the verbatim lexer.rs (R6 stubs, one lifted arm, R7 copy for escapes) + exhaustive bounded execution of a resolver leaf",
+        scope="lexer functions and calculate_named_arg_order",
+        assumptions=[]),
+    "C29": dict(
+        units=["u11_lexer"], level="model_checking",
+        level_text=("Lexer half: the lifted '/' arm of tokenize_file: `//` lands on the next newline or end of input; `/*` lands just after the first `*/` (or at "
+                    "end of input); no token is produced for the comment; comment bodies of <= 5 (7 thorough) chars over {* / newline a e-acute space}."),
+        level_note=("The arm is a lifted slice; dispatch is not covered. Optional separators, blank lines and `;`/`,` need the parser and are not decided."),
+        technique="Kani/CBMC bounded verification of a lifted match arm of the verbatim lexer.rs + CLI replay",
+        scope="comment skipping in the lexer",
+        assumptions=[]),
+    "C30": dict(
+        units=["u11_lexer", "u4a_ctrl"], level="model_checking",
+        level_text=("Lexer half: handle_num token text/kind/length (digits in order, `_` removed, one `.` kept); process_escapes_into equals the spec function "
+                    "unescape (\\n \\t \\r \\\" \\' \\\\ \\xNN) with a diagnostic iff any other escape; scan_for_unescaped_delim returns the first delimiter after an "
+                    "even backslash run. VM half (Verus, unbounded): PushInt/PushFloat/PushString push exactly the constant-table entry they name."),
+        level_note=("Bounded input length (<= 3-6 chars). Escapes are checked on the R7 copy (format! replaced). The escape spec is written from the property "
+                    "statement (the book does not document escapes). Not covered: multiline strings and indentation stripping, negation and range checks "
+                    "(parse.rs), str::parse::<i64/f64> (trusted std), constant-table construction in the assembler."),
+        technique="Kani/CBMC bounded function-level verification of the verbatim lexer.rs + Verus on the constant-pushing arms",
+        scope="numeric literal scanning, escapes, delimiter scanning; constant pushes",
+        assumptions=[]),
+    "C33": dict(
+        units=["u11_lexer"], level="model_checking",
+        level_text=("Span units only: for emit/emit_with_skipped a token's span must equal [byte offset of its first char, byte offset after its last char) of the "
+                    "source, on inputs with multi-byte characters (<= 4-6 chars)."),
+        level_note=("The postcondition is derived from the byte-indexed consumers (Location::range into codespan, line_number_for_index). One known finding: "
+                    "spans are char indices. Not covered: string-token spans, per-error-kind ranges in error.rs, parser/typechecker diagnostics."),
+        technique="Kani/CBMC bounded verification of the verbatim lexer.rs + CLI replay",
+        scope="token spans",
+        assumptions=[]),
+    "C05": dict(
+        units=["u9_opt", "u1_int", "u2_float", "u17_codegen"], level="proof",
+        level_text=("Three layers on real text. (1) literal == variable at the VM: every XImm arm is proved against the SAME specification as X (Verus for ints, "
+                    "Kani over all bit patterns for floats, incl. the division-by-zero condition). (2) constant folds: each fold arm of peephole3_helper is lifted "
+                    "and proved sound against the arm's specification (fold produces c => arm gives c; arm would raise => no fold). (3) window rewrites: the real "
+                    "optimize_bytecode.rs (impl Instr predicates / replace_* / peephole1-3 helpers / optimization_pass / optimize) is verified by Verus, symbolically "
+                    "over all 113 assembly opcodes and operands, against contracts over an operand layout derived mechanically from the VM arms; Verus lemmas L1-L8 "
+                    "show each rewritten window has the same effect on (stack, result) for arms of the fetch/fetch/store shape, including the rule-order side "
+                    "condition, register-offset encodability and 16-bit immediate indices; Reg::encode round trip by Kani."),
+        level_note=("Assumed: the translator never emits `PushNil(0); Pop` and preallocates locals (Offset operands address slots below a pushed copy); std float "
+                    "to_string/parse round trip exact; derived Clone structural; String payloads opaque. Not covered: composition of passes beyond the per-window "
+                    "contracts and the immediate-index bound; instr_to_vminstr is a syntactic table check (u17, not counted as proof)."),
+        technique="Verus on the real optimizer text + window lemmas over the VM stack vocabulary; Verus/Kani on the VM arms; Kani bit-precise float folds",
+        scope="optimize_bytecode.rs, Reg::encode, XImm vs X arms, constant folds",
+        assumptions=[]),
+    "C32": dict(
+        units=["u10_srcloc"], level="model_checking",
+        level_text=("create_source_location_tables (real text, Verus, unbounded): each table strictly increasing, starts at 0, and the last entry with start <= i "
+                    "carries instruction i's file/line/function id. pc_to_error_location (real vm.rs, Kani, tables <= 4 entries): the location reported for pc is "
+                    "that of instruction pc-1 (the VM has already incremented pc; call frames hold return addresses). make_stack_trace lists frames outermost "
+                    "first and Display prints the failure location then the frames innermost first (Kani, <= 3 frames)."),
+        level_note=("Lookups bounded by table length. NOT decided: that the translator emits each instruction with the right file/line/function ids; formatting "
+                    "beyond order; byte-vs-char offsets in line_number_for_index (see C33's finding)."),
+        technique="Verus on the real table builder + Kani bounded harnesses on the real lookup / trace code",
+        scope="source-location tables and lookups",
+        assumptions=[]),
 }
 
 NOT_APPLICABLE = {
 
-    "C04": PENDING, "C05": PENDING, "C08": PENDING,
+    "C08": PENDING,
     "C09": PENDING, "C10": PENDING, "C11": PENDING, 
-    "C29": PENDING, "C30": PENDING, 
-    "C32": PENDING, "C33": PENDING, 
+    
+    
     "C02": "needs a semantics-preservation proof of translate_expr/translate_stmt (3 kLoC AST recursion over Rc/HashMap/StaticsContext); no function-level contract short of compiler correctness expresses it",
     "C03": "reachability of unwrap/unreachable!/unimplemented! in the translator from every typed AST: no function-level precondition on StaticsContext can be stated and discharged with Verus/Kani",
     "C12": "correctness of the Maranget usefulness recursion over Rc<EnumDef>/StaticsContext pattern matrices: inductive proof out of reach of both tools; leaf contracts (C13) do not decide it",
